@@ -39,6 +39,9 @@ def facts(ctx):
     if not mt:
         raise TieBroken("srcfacts: thumbnail count test of the update branch not found")
     limit = int(mt.group(2)) if mt.group(1) == ">" else int(mt.group(2)) - 1
+    # fix 37f0723a3: the hard-binding test is the first rule of the update branch
+    if not re.search(r"if\s+claim\.update_manifest\(\)\s*\{(?:\s*//[^\n]*\n)*\s*if\s+!claim\.hash_assertions\(\)\.is_empty\(\)\s*\{[^}]*?MANIFEST_UPDATE_INVALID", vi, re.S):
+        raise TieBroken("srcfacts: verify_internal's update branch no longer starts with the hard-binding test (hash_assertions non-empty => manifest.update.invalid)")
     for frag, what in ((r"ALLOWED_UPDATE_MANIFEST_ACTIONS\s*\.iter\(\)\s*\.any\(\|a\|\s*\*a\s*==\s*action\.action\(\)\)", "allowed-action test"),
                        (r"match\s+parent_count\s*\{\s*0\s*=>\s*\{[^}]*?MANIFEST_UPDATE_WRONG_PARENTS", "parent_count 0 arm"),
                        (r"1\s*=>\s*\(\),\s*_\s*=>\s*\{[^}]*?MANIFEST_UPDATE_INVALID", "parent_count 1 / _ arms"),
